@@ -30,17 +30,15 @@ SliceLen(K, NW, w) == IF SliceHi(K, NW, w) > SliceLo(K, NW, w)
 Slice(K, NW, w)    == [i \in 1..SliceLen(K, NW, w) |-> SliceLo(K, NW, w) + i]
 
 Iota(K) == [i \in 1..K |-> i]
-RECURSIVE ConcatSlices(_, _, _)
-ConcatSlices(K, NW, w) == IF w >= NW THEN << >> ELSE Slice(K, NW, w) \o ConcatSlices(K, NW, w + 1)
+ConcatSlices(K, NW, w0) ==
+  LET C[w \in 0..NW] == IF w >= NW THEN << >> ELSE Slice(K, NW, w) \o C[w + 1] IN C[w0]
 \* every root belongs to exactly one slice, slices are contiguous and in kernel order
 PartitionOk(K, NW) == ConcatSlices(K, NW, 0) = Iota(K)
 
 Range(s) == { s[i] : i \in DOMAIN s }
 IsPrefix(s, t) == Len(s) <= Len(t) /\ \A i \in 1..Len(s) : s[i] = t[i]
 \* the subsequence of s made of the elements that belong to the set S
-RECURSIVE Restrict(_, _)
-Restrict(s, S) == IF s = << >> THEN << >>
-                  ELSE (IF Head(s) \in S THEN <<Head(s)>> ELSE << >>) \o Restrict(Tail(s), S)
+Restrict(s, S) == SelectSeq(s, LAMBDA x : x \in S)
 
 \* ---------------------------------------------------------------- abstract kernels
 \* k = [n |-> K, src |-> <<SUBSET 1..K, ...>>, lat |-> <<Nat, ...>>]
@@ -55,19 +53,18 @@ Edge(k, x, y) ==
      \/ x <= k.n /\ y > k.n /\ i >= j           \* produced in the previous iteration (or by itself)
 
 \* all paths x ~> t (the graph is acyclic and edges go forward: every path is simple)
-RECURSIVE PathsTo(_, _, _)
-PathsTo(k, x, t) ==
-  IF x = t THEN { <<t>> }
-  ELSE UNION { { <<x>> \o p : p \in PathsTo(k, y, t) } : y \in { z \in (x + 1)..t : Edge(k, x, z) } }
+PathsTo(k, x0, t) ==
+  LET P[x \in 1..t] ==
+        IF x = t THEN { <<t>> }
+        ELSE UNION { { <<x>> \o p : p \in P[y] } : y \in { z \in (x + 1)..t : Edge(k, x, z) } }
+  IN P[x0]
 
 \* what a worker appends for root r: list(all_simple_paths(dg, r, r + offset))
 RootPaths(k, r) == PathsTo(k, r, r + k.n)
 
-RECURSIVE SortedSeq(_)
-SortedSeq(S) == IF S = {} THEN << >>
-                ELSE LET m == CHOOSE a \in S : \A b \in S : a <= b IN <<m>> \o SortedSeq(S \ {m})
-RECURSIVE SumLat(_, _, _)
-SumLat(k, p, i) == IF i >= Len(p) THEN 0 ELSE k.lat[Line(k, p[i])] + SumLat(k, p, i + 1)
+SortedSeq(S) == [i \in 1..Cardinality(S) |-> CHOOSE a \in S : Cardinality({ b \in S : b < a }) = i - 1]
+SumLat(k, p, i0) ==
+  LET S[i \in 1..Len(p)] == IF i >= Len(p) THEN 0 ELSE k.lat[Line(k, p[i])] + S[i + 1] IN S[i0]
 
 \* what the post-processing keeps of a path: source lines of its edges mapped back to the
 \* first iteration and sorted (the de-duplication key and the dictionary key), latency sum
@@ -76,10 +73,12 @@ CycOfRoot(k, r) == { Cycle(k, p) : p \in RootPaths(k, r) }
 
 \* kernel table entry used by the state machine:
 \*   n, cyc[r] = cycle records (or opaque cycle ids) of root r, np[r] = number of paths of root r
-\* (TLCEval: TLC keeps [x \in S |-> e] lazy and would re-enumerate the paths on every application)
+\* (TLC keeps [x \in S |-> e] lazy and does not cache it: cyc[r] enumerates the paths of root r on
+\*  every application, so the state machine touches the table only in PostProcess and in the
+\*  properties of terminal states)
 Build(k) == [n   |-> k.n,
-             cyc |-> TLCEval([r \in 1..k.n |-> CycOfRoot(k, r)]),
-             np  |-> TLCEval([r \in 1..k.n |-> Cardinality(RootPaths(k, r))])]
+             cyc |-> [r \in 1..k.n |-> CycOfRoot(k, r)],
+             np  |-> [r \in 1..k.n |-> Cardinality(RootPaths(k, r))]]
 
 \* ---------------------------------------------------------------- post-processing
 \* de-duplication set + sort: a function of the set of roots whose paths were collected
